@@ -35,6 +35,7 @@ def check(chk, fx):
         "equal. The uses of the result (index as term, length as extent, default result as failure) are the shared "
         "rules SLICE, LENW, TAG, IDX.")
     lexarm(chk, fx)
+    lexlocal(chk, fx)
     sent_c(chk, fx)
     lexrules.slice_rule(chk, fx)
     lexrules.lenw(chk, fx)
@@ -59,6 +60,32 @@ def check(chk, fx):
                    q.startswith(P + "context_parse") or q.startswith(P + "syntax_error") or
                    q.startswith(P + "trace_recognized_term") or q.startswith(P + "consume_term"),
                    "uses of the term index returned by the lexer", 5)
+
+
+def lexlocal(chk, fx):
+    """LEXLOCAL: "the parser asks L for one term at each position": every request is made to a freshly default-constructed
+    L (an automatic local of the function that makes the request), as for the generated lexer, which has no state at all.
+    A lexer object kept across requests would carry whatever its match() leaves in its members into the next request."""
+    chk.rule("LEXLOCAL", "the custom lexer object is an automatic local of the requesting function", 1)
+    n_ok = 0
+    for f0 in fx.need(P + "get_current_term"):
+        for f in A.with_helpers(f0):
+            for n in walk(f.body):
+                if A.is_call(n, name="match") and n.get("k") == "CXXMemberCallExpr":
+                    obj = A.call_object(n)
+                    d = A.declref(obj)
+                    v = [x for x in walk(f.body) if d is not None and x.get("k") == "Var" and x["id"] == d["id"]]
+                    if d is None or d["k"] != "Var" or not v or v[0].get("staticlocal") or v[0].get("ref"):
+                        chk.violation("LEXLOCAL", A.site(f, n), "LEXLOCAL:%s" % f.o["n"],
+                                      "match() is called on '%s', which is not a lexer object created for this request: state "
+                                      "left in the lexer by one request reaches the next one" %
+                                      A.path_names(A.access_path(obj)))
+                    else:
+                        n_ok += 1
+                        if n_ok == 1:
+                            chk.ok("LEXLOCAL", A.site(f, n), "a fresh '%s' per request" % d["n"])
+    if n_ok == 0 and not chk.violations:
+        chk.incomplete("LEXLOCAL: no custom-lexer instantiation of get_current_term in the witness matrix")
 
 
 def lexarm(chk, fx):
